@@ -39,11 +39,16 @@ def run_case(case):
         return prefix_case(case)
     if case.get("kind") == "byname":
         return byname_case(case)
+    if case.get("kind") == "zero":
+        return zero_case(case)
     alg, N, dim = case["alg"], case["N"], case["dim"]
     pre = f"C07|{alg}_{N}"
     vs = []
+    kw = {"time_generation": True} if case.get("timed") else {}
+    if case.get("timed"):
+        pre += "|timed"
     try:
-        g = SphereGridFactory.create(alg_name=alg, N=N, dimensions=dim)
+        g = SphereGridFactory.create(alg_name=alg, N=N, dimensions=dim, **kw)
         G = np.asarray(g.get_grid_as_array(only_upper=True) if dim == 4 else g.get_grid_as_array(), dtype=float)
     except Exception as e:
         return {"violations": [viol(pre + "|raises", f"{type(e).__name__}: {str(e)[:120]}", case,
@@ -73,6 +78,27 @@ def run_case(case):
         full = np.asarray(g.get_grid_as_array(only_upper=False), dtype=float)
         if full.shape != (2 * N, 4) or not np.array_equal(full[:N], G) or not np.array_equal(full[N:], -G):
             vs.append(viol(pre + "|double_cover", "full array is not [G; -G] exactly", case, observed=list(full.shape)))
+    return {"violations": vs, "N": N}
+
+
+def zero_case(case):
+    """a zero grid requested directly with N != 1: the unchanged tree answers with the one-point grid (N is ignored);
+    accepted outcomes are ValueError, or a grid of 1 or N rows that are of unit norm and pairwise distinct"""
+    alg, N, dim = case["alg"], case["N"], case["dim"]
+    pre = f"C07|{alg}_N={N}|explicit_zero"
+    try:
+        g = SphereGridFactory.create(alg_name=alg, N=N, dimensions=dim)
+        G = np.asarray(g.get_grid_as_array(only_upper=True) if dim == 4 else g.get_grid_as_array(), dtype=float)
+    except ValueError:
+        return {"violations": [], "N": N}
+    except Exception as e:
+        return {"violations": [viol(pre + "|raises", f"{type(e).__name__}: {str(e)[:100]}", case)], "N": N}
+    vs = []
+    if G.ndim != 2 or G.shape[1] != dim or len(G) not in (1, N):
+        vs.append(viol(pre + "|shape", "zero grid has neither 1 nor N rows", case, observed=list(G.shape)))
+    elif np.abs(np.linalg.norm(G, axis=1) - 1).max() > 1e-12 or (len(G) > 1 and min_sep(G, dim == 4) < 1e-6):
+        vs.append(viol(pre + "|distinct", "rows of the zero grid are not distinct unit vectors / distinct rotations", case,
+                       observed=G.tolist()[:4]))
     return {"violations": vs, "N": N}
 
 
@@ -149,6 +175,14 @@ def cases(tier):
             out.append({"alg": alg, "N": N, "dim": 4})
     for N in fd:
         out.append({"alg": "fulldiv", "N": N, "dim": 4})
+    for alg, dim in (("ico", 3), ("cube3D", 3), ("randomS", 3), ("cube4D", 4), ("randomQ", 4)):
+        for N in (1, 2, 3, 5, 8, 13, 27, 40):
+            out.append({"alg": alg, "N": N, "dim": dim, "timed": True})       # the timed-generation code path
+    out.append({"alg": "fulldiv", "N": 40, "dim": 4, "timed": True})
+    out.append({"alg": "zero4D", "N": 1, "dim": 4, "timed": True})
+    for alg, dim in (("zero3D", 3), ("zero4D", 4)):
+        for N in (2, 3, 4, 7):
+            out.append({"kind": "zero", "alg": alg, "N": N, "dim": dim})
     out.append({"alg": "zero3D", "N": 1, "dim": 3})
     out.append({"alg": "zero4D", "N": 1, "dim": 4})
     for b, o in (("1", "1"), ("cube4D_1", "ico_1"), ("randomQ_1", "cube3D_1"), ("zero", "zero"), ("1", "randomS_1"),
